@@ -222,7 +222,22 @@ def typecheck_layer(ctx):
                 node = _ps.parse(_lx.tokenize(text))
                 for bname, mk in bks.items():
                     if bname == "sql":
-                        continue   # the SQL dialects do not call typecheck(): their own overload inference is judged by C12
+                        # the SQL dialects do not call typecheck(); their own overload inference rejects a literal of another kind
+                        # when the OTHER operand is a field (unknown type) - that much is pinned here (a string literal next to it
+                        # makes them assume the string overload, see DESIGN 7 "C18, SQL dialects")
+                        a2 = [s_field, s_field]
+                        a2[pos] = lit
+                        n2 = _ps.parse(_lx.tokenize(to_odata(T.call(fn, *a2))))
+                        ctx.count("executions")
+                        try:
+                            mk().visit(n2)
+                            if kind not in ("List", "Geography"):
+                                ctx.violation("typecheck-accepts-ill-typed-literal:sql:%s" % kind, {"text": to_odata(T.call(fn, *a2)), "backend": "sql", "literal_kind": kind, "position": pos, "check": "typecheck"})
+                        except exceptions.ODataException:
+                            ctx.outcome(("tc-rejected", "sql", kind))
+                        except Exception as e:  # noqa
+                            ctx.outcome(("tc-other", "sql", type(e).__name__))
+                        continue
                     ctx.count("executions")
                     ctx.count("states")
                     try:
